@@ -97,6 +97,67 @@ def run(ctx):
             # direct / via: the model's value is the single fixed ratio applied to x (proved: convert_is_ratio, convert_transitive)
             tgt = ctx.spec_failures if (m[0] == "via") else ctx.model_disagreements
             tgt.append({"stream": "conversions", "input": exprs[i], "impl": o[:120], "model": mo, "spec": "going through an intermediate unit gives the same answer as converting directly"})
+    # implicit conversions: a compound result is silently re-expressed in a default unit (liter, newton, joule, ... or a lone base unit); that
+    # re-expression is a conversion like any other and must agree with the explicit one and with the table's ratios
+    t1 = time.time()
+    byd = {}
+    for (d, pi), ns in classes.items():
+        if pi == 0 and not (set(ns) & temp):
+            byd[d] = [n for n in ns if n not in temp]
+    def dmul(d1, d2, sgn):
+        o = dict(d1)
+        for b, e in d2:
+            o[b] = o.get(b, 0) + sgn * e
+        return tuple(sorted((b, e) for b, e in o.items() if e != 0))
+    targets = {}
+    for nm in ("hertz", "newton", "pascal", "joule", "watt", "ohm", "volt", "liter", "meter", "second", "kilogram", "ampere", "kelvin", "mole", "candela", "bit"):
+        if nm in ok and ok[nm][1] == 0:
+            targets[unitcases.reduce_dims(ok[nm][2])] = nm
+    combos = []
+    for d1 in byd:
+        for d2 in byd:
+            for sgn, op in ((1, "*"), (-1, "/")):
+                if dmul(d1, d2, sgn) in targets and d1 and d2:
+                    combos.append((d1, d2, op))
+    iexprs, imeta = [], []
+    for _ in range(600 if quick else 12000):
+        if not combos: break
+        d1, d2, op = r.choice(combos)
+        a, b = r.choice(byd[d1]), r.choice(byd[d2])
+        x, y = r.choice([F(1), F(2), F(3), F(50), F(7, 2), F(1, 8)]), r.choice([F(1), F(1), F(2), F(5), F(3, 4)])
+        iexprs.append(f"@noapprox ((({unitcases.q(x)}) {a}) {op} (({unitcases.q(y)}) {b})) to fraction"); imeta.append((a, b, op, x, y))
+    for e in ["1 hectare * 1 m", "2 are * 50 cm", "1 acre * 1 ft", "1 J / (1 Pa)", "3 kW * 2 s / (1 bar)", "1 N * 1 m", "1 W * 1 hour", "1 V / (1 A)", "1 W / (1 A)", "1 J / (1 m)", "1 N / (1 m^2)", "1 / (1 ms)", "1 km / (1 km/h)", "1 gallon / (1 inch^2)"]:
+        iexprs.append(f"@noapprox ({e}) to fraction"); imeta.append(None)
+    io = ctx.run_lines_robust(h, ["eval"], iexprs, env={"HARNESS_LINE_TIMEOUT_S": "20"})
+    import re as _re
+    second, smeta = [], []
+    for e, m, o in zip(iexprs, imeta, io):
+        mm = _re.match(r"ok (-?[0-9]+(?:/[0-9]+)?) (.+)$", o)
+        if not mm: continue
+        v, U = F(mm.group(1)), mm.group(2)
+        inner = e[len("@noapprox "):-len(" to fraction")]
+        second.append(f"@noapprox ({inner} to {U}) to fraction"); smeta.append((e, m, o, v, U))
+    so = ctx.run_lines_robust(h, ["eval"], second, env={"HARNESS_LINE_TIMEOUT_S": "20"}) if second else []
+    idist = {"implicit_results": len(iexprs), "with_unit": len(second), "explicit_agrees": 0, "table_checked": 0, "explicit_unparsed": 0, "shown_in": {}}
+    for (e, m, o, v, U), o2 in zip(smeta, so):
+        idist["shown_in"][U] = idist["shown_in"].get(U, 0) + 1
+        if not o2.startswith("ok "):
+            idist["explicit_unparsed"] += 1
+        elif o2 != o:
+            ctx.spec_failures.append({"stream": "implicit", "input": e, "impl": f"shown as `{o[3:]}`, but converting the same quantity explicitly to `{U}` gives `{o2[3:]}`", "model": "",
+                                      "spec": "a conversion multiplies by one fixed ratio: the unit fend chooses by itself for a compound result and the explicit `to` into that unit must show the same quantity"})
+            continue
+        else:
+            idist["explicit_agrees"] += 1
+        if m is not None and U in ok and ok[U][1] == 0:
+            a, b, op, x, y = m
+            want = x * ok[a][0] * (y * ok[b][0] if op == "*" else 1 / (y * ok[b][0])) / ok[U][0]
+            idist["table_checked"] += 1
+            if v != want:
+                ctx.spec_failures.append({"stream": "implicit", "input": e, "impl": o[:120], "model": f"{unitcases.q(want)} {U}", "spec": "the ratios agree with the table's defining scales (the shown quantity is not the computed one)"})
+    ctx.record_stream("implicit", "products and quotients of two quantities whose combined dimension is one fend re-expresses by itself (liter, newton, pascal, joule, watt, ohm, volt, hertz, a lone base unit), "
+                      "units drawn from every dimension-class pair of the regenerated table that combines to such a dimension, plus named shapes (area x length, energy / pressure, power x time, ...): the implicit "
+                      "result must equal the explicit conversion into the unit shown, and the value implied by the table's scales", len(iexprs) + len(second), len(set(iexprs)), idist, iexprs[:3], time.time() - t1)
     ctx.record_stream("conversions", "pairs and triples of unit names (incl. randomly prefixed ones) inside each dimension class of the regenerated resolved table, rational magnitudes; "
                       "`@noapprox (x A to B) to fraction`, there-and-back, via an intermediate unit, scaled quantities, temperature forms; vs the Lean conversion model fed with the "
                       "resolved scales/dimensions, and vs the algebraic laws directly", len(exprs), len(set(exprs)), dist, exprs[:3], time.time() - t0)
